@@ -11,6 +11,7 @@ recovery (same hook, armed on the recovering open) must recover to the same stat
 from sqlcase import is_conflict_text
 import os
 import random
+import re
 import shutil
 
 from common import Report, Violation, parallel_map, h, run_sentinels, scratch_dir, rm, Runner, RunnerDied, RunnerTimeout
@@ -26,17 +27,20 @@ LAYOUTS = [
 TYPES = ("INT", "BIGINT", "VARCHAR", "BOOLEAN")
 
 
-def gen_workload(rng):
+def gen_workload(rng, wide=False):
     """[(kind, sql, apply_fn)] where apply_fn mutates a model dict name->ModelTable"""
     steps = []
     tables = {}
-    names = ["ta", "tb"]
+    # a third of the workloads name tables and columns with multi-byte characters: the manifest records hold the names, and a
+    # torn write can end inside a character
+    # (drawn from a stream of its own by the caller, so that the statements of a workload do not depend on it)
+    names = ["tä", "t数"] if wide else ["ta", "tb"]
     uid = [0]
 
     def mk_table(name):
         cols = [Col("id", "INT", nullable=False, pk=rng.random() < 0.5)]
         for i in range(rng.randint(1, 2)):
-            cols.append(Col("pq"[i], rng.choice(TYPES)))
+            cols.append(Col(("pé", "q€")[i] if wide else "pq"[i], rng.choice(TYPES)))
         return Table(name, cols)
 
     n = rng.randint(6, 14)
@@ -256,13 +260,29 @@ def torn_variants(snapdir, cp, prev_manifest_len, exhaustive, rng):
     size = os.path.getsize(f)
     if step == "manifest_append.written" and os.path.basename(f) == "manifest.tmp.json":
         lo = 0
-    if size <= lo:
+    if lo is None or size <= lo:
         return
+    if step == "manifest_append.written":
+        # self-check of the harness: the bytes from `lo` on are the record in flight (every append starts with `"Begin"`);
+        # if they are not, `lo` is not the start of that record and a cut there would drop acknowledged records
+        with open(f, "rb") as fh:
+            fh.seek(lo)
+            if fh.read(7) != b'"Begin"':
+                raise RuntimeError(f"torn-variant base {lo} of {f} is not the start of a manifest record")
     if exhaustive and step != "colfile.written":
         lens = list(range(lo, size))
     else:
-        lens = sorted({lo, lo + 1, (lo + size) // 2, size - 1, rng.randrange(lo, size)})
-        lens = [x for x in lens if lo <= x < size]
+        lens = {lo, lo + 1, (lo + size) // 2, size - 1, rng.randrange(lo, size)}
+        if step == "manifest_append.written":
+            # structural cuts of a manifest record: inside a multi-byte character of a name (the file is text), and right after
+            # each `"End"` / before each `"Begin"` (between two transactions of one statement)
+            data = open(f, "rb").read()
+            inside = [i for i in range(max(lo, 1), size) if data[i] & 0xC0 == 0x80]
+            if inside:
+                lens |= {inside[0], rng.choice(inside)}
+            ends = [m.end() for m in re.finditer(rb'"End"', data[lo:])]
+            lens |= {lo + e for e in ends[:-1]}
+        lens = sorted(x for x in lens if lo <= x < size)
     for ln in lens:
         d = scratch_dir("torn")
         shutil.copytree(snapdir, os.path.join(d, "db"))
@@ -276,7 +296,7 @@ def run_workload(args):
     seed, idx, exhaustive = args
     rng = random.Random(f"c04-{seed}-{idx}")
     layout = rng.choice(LAYOUTS)
-    steps = gen_workload(rng)
+    steps = gen_workload(rng, random.Random(f"c04w-{seed}-{idx}").random() < 0.33)
     res = dict(seed=seed, idx=idx, violations=[], states=0, by_step={}, matched={}, recrash=0, inconclusive=None,
                sample=[s[1][:80] for s in steps[:8]], distinct=[])
     base = scratch_dir("c04")
@@ -327,10 +347,16 @@ def run_workload(args):
         for sql, kind, cps, before, after in pending:
             inflight = sql if kind in ("create", "insert", "delete", "drop") else None
             for cp in cps:
+                step = cp["step"]
+                res["vanished"] = res.get("vanished", 0) + cp.get("vanished", 0)
+                if step == "manifest_append.before":
+                    # start of the record in flight at the next `.written`: the hook reports the length of the live manifest
+                    # at this step whether or not its directory copy succeeded (None: no manifest.json -> no torn variants)
+                    prev_manifest_len = cp.get("manifest_len")
                 if not cp.get("copied"):
+                    res["uncopied"] = res.get("uncopied", 0) + 1
                     continue
                 snapdir = cp["snap"]
-                step = cp["step"]
                 res["by_step"][step] = res["by_step"].get(step, 0) + 1
                 deep = rng.random() < (0.5 if exhaustive else 0.15)
                 v, info = recover_and_judge(snapdir, layout, before, after, inflight, deep, step)
@@ -353,9 +379,6 @@ def run_workload(args):
                             res["violations"].append((sig, f"workload {idx}, statement `{sql[:70]}`, torn write at {step} ({cp['path']}): {what}"))
                     finally:
                         rm(troot)
-                mf = os.path.join(snapdir, "manifest.json")
-                if step in ("manifest_append.before",) and os.path.exists(mf):
-                    prev_manifest_len = os.path.getsize(mf)
                 if len(res["violations"]) > 5:
                     break
             if len(res["violations"]) > 5:
@@ -381,11 +404,13 @@ def run(tier, seed):
                 "every byte prefix of manifest records and DV files) and crashes during the recovery of a sample of states; every recovered state takes new statements and is then shut down and opened a second time; "
                 "distinct non-trivial = distinct (step, statement kind, which model matched)")
     by_step, matched = {}, {}
-    recrash = second_open = 0
+    recrash = second_open = uncopied = vanished = 0
     for res in parallel_map(run_workload, [(seed, i, exhaustive) for i in range(n)]):
         rep.evaluations += res["states"]
         recrash += res["recrash"]
         second_open += res.get("second_open", 0)
+        uncopied += res.get("uncopied", 0)
+        vanished += res.get("vanished", 0)
         rep.distinct.update(res["distinct"])
         for k, v in res["by_step"].items():
             by_step[k] = by_step.get(k, 0) + v
@@ -398,12 +423,16 @@ def run(tier, seed):
             rep.add_violation(Violation(sig, what, dict(seed=res["seed"], idx=res["idx"], exhaustive=exhaustive)))
     run_sentinels(rep, sentinel)
     rep.coverage.update(crash_states_by_step=by_step, recovered_state_matched=matched, crashes_during_recovery=recrash,
-                        second_opens_after_recovery_and_new_statements=second_open)
+                        second_opens_after_recovery_and_new_statements=second_open,
+                        crash_points_whose_directory_copy_failed=uncopied,
+                        entries_unlinked_by_the_program_during_a_copy=vanished)
     rep.floor("second opens after recovery", second_open, n * 15)
     rep.floor("crash states recovered", rep.evaluations, n * 20)
     rep.floor("distinct persistence steps hit", len([k for k in by_step if not k.endswith(":torn")]), 12)
     rep.assumptions = ["process death only: everything written before the crash point is in the copied directory (no loss of un-fsynced page cache)",
-                       "the directory copy is taken synchronously inside the hook, on the thread that performs the step"]
+                       "the directory copy is taken synchronously inside the hook, on the (only) runtime thread; a file operation already "
+                       "handed to the blocking pool (a vacuum's remove_dir_all, another task's write) may complete during the copy, so "
+                       "an entry that vanishes while it is copied is skipped - each such state is a crash state of that concurrent operation"]
     if tier == "thorough" and not os.environ.get("VERIF_OVERLAY"):
         import sanitize
         sanitize.overlay(rep, "asan", timeout=5400)
